@@ -72,6 +72,34 @@ def static_interpreters(ctx, rep, clause):
            'sequence', f.loc(), clause)
 
 
+def condense_unfiltered(ctx, rep, clause):
+    """condense_static_mods writes the rule's modification list itself onto every matched residue (and terminus): the
+    explicit form carries the rule once per target whatever the residue already carries"""
+    program = ctx.program
+    f = program.func(f'{PP}:ProFormaAnnotation.condense_static_mods')
+    c = Canon(f.node)
+    rule_tok = None
+    for name in c.order:
+        for kind, payload in c.bindings[name]:
+            if kind == 'each' and tuple(payload[1]) == (1,) and c.text(payload[0]).endswith('.items()'):
+                rule_tok = name
+    if rule_tok is None:
+        raise AnalysisError('condense_static_mods: the loop over the rule map was not found')
+    k = 0
+    for x in walk_own(f.node):
+        if isinstance(x, ast.Call) and isinstance(x.func, ast.Attribute) and x.func.attr in ('add_internal_mods', 'add_internal_mod'):
+            k += 1
+            arg = x.args[0] if x.args else None
+            vals = list(arg.values) if isinstance(arg, ast.Dict) else ([x.args[1]] if len(x.args) > 1 else [])
+            ok = bool(vals) and all(isinstance(v, ast.Name) and v.id == rule_tok for v in vals)
+            ob(rep, 'SIB-static', f.fq, 'the rule list is written unfiltered onto each matched residue', ok,
+               'the value added is the rule\'s own modification list',
+               f'`{norm_stmt(x)[:80]}` adds something other than the rule\'s modification list (a filtered or rebuilt '
+               f'list): a target that already carries the same modification gets it once where the rule form and the '
+               f'mass fast path count it twice', f.loc(x), clause)
+    rep.floor('SIB-static', 'residue writes in condense_static_mods', k, 1)
+
+
 def isotope_control(ctx, rep, clause):
     an, program = ctx.analyzer, ctx.program
     f = program.func('peptacular.chem.chem_calc:_sequence_comp')
@@ -267,8 +295,11 @@ def routing(ctx, rep, clause):
 def check(ctx, rep):
     rep.explanation = EXPLANATION
     static_interpreters(ctx, rep, 'C12a')
+    condense_unfiltered(ctx, rep, 'C12a')
     isotope_control(ctx, rep, 'C12b')
     token_pairs(ctx, rep, 'C12c')
     routing(ctx, rep, 'C12d')
+    from .common import self_accumulation_rule
+    self_accumulation_rule(ctx, rep, 'C12b', ('peptacular.chem.chem_calc',))
     from .common import repeat_alias_rule
     repeat_alias_rule(ctx, rep, 'C12a', ('peptacular.proforma.proforma_parser', 'peptacular.mass_calc', 'peptacular.chem.chem_calc'))
